@@ -17,22 +17,49 @@ RULE = ('every opcode cell of the 1-byte, 0F, 0F38 and 0F3A maps x all 256 ModRM
         'both decoders accept; classes = (opcode cell, prefix, mod).')
 RULE += " Round 6: a 'stringops' shard puts the string instructions and the other prefix-sensitive one-byte opcodes under every ordered pair and some triples of rep / operand-size / address-size / segment prefixes; where GNU as cannot read a rendering, the repeat prefix is compared as well wherever IA-32 gives it a meaning (f3 on every string instruction, f2 on cmps/scas)."
 RULE += ' Round 7: all 256 immediates on shift / rotate / double-shift / bit-test / MMX-shift / aam-aad forms (count grid).'
+RULE += ' Round 10: one string in eight is first decoded for a 16-bit code segment (result dropped) and only then decoded as usual: that decode is the one judged against the reference and must equal the decode of the string with one more trailing byte; the last decoded object with the same second byte is printed again after every decode and must print as before (instruction objects stay valid while others are decoded).'
 RULE += ' Round 8: one accepted string in eight is decoded a second and third time through a library stream positioned at a non-zero offset (followed by other bytes / ending exactly with the instruction): length, raw bytes, text and bytes consumed must be those of the plain decode.'
 ASSUMPTIONS = ['GNU binutils 2.40 (objdump -M intel, as --32) is the reading of IA-32 bytes and Intel text; LLVM 14 llvm-objdump is the tie-breaker: '
                'when it disagrees with objdump about the length the case is a reference disagreement, not a violation',
                'a rendering GNU as cannot read is undecided here (C09 judges readability)']
 
 
+LIVE = {}
+
+
 def analyse(sh, items, tier):
     """items: list of (bytes, cls). Runs the whole pipeline on one batch."""
     from miasmx.arch.ia32_arch import x86mnemo
     dec = []
+    from miasmx.arch.ia32_reg import x86_afs as _afs
+    nth = 0
     for b, cls in items:
+        nth += 1
+        pre16 = (b[0] + nth) % 8 == 3
+        if pre16:
+            # the other configuration first: the same bytes decoded for a 16-bit code segment, result dropped; the default decode
+            # that follows (and is judged against the reference below) must also equal the decode of the string with one more
+            # trailing byte, which no earlier call has seen
+            try:
+                x86mnemo.dis(b, {'opmode': _afs.u16, 'admode': _afs.u16})
+            except Exception:
+                pass
         try:
             ins = x86mnemo.dis(b)
         except Exception:
             sh.counters['dis_raises(C10)'] += 1
             continue
+        if pre16:
+            sh.counters['decoded_after_a_16bit_decode_of_the_same_bytes'] += 1
+            try:
+                i3 = x86mnemo.dis(b + b'\x90')
+                a_, b_ = (None if ins is None else (ins.l, bytes(ins.b), str(ins))), (None if i3 is None else (i3.l, bytes(i3.b), str(i3)))
+            except Exception:
+                a_ = b_ = None
+            if a_ != b_ and (a_ is None or a_[0] <= len(b)) and (b_ is None or b_[0] <= len(b)):
+                sh.case(('pre16', b), True, cls=None)
+                sh.violation('configuration-interleave/default-decode-after-16bit-decode-of-the-same-bytes', 'bytes %s: decoded right after dis(bytes, 16-bit code segment) the default decode gives %r; the same string with one more trailing byte gives %r' % (
+                    b.hex(), a_ and (a_[0], a_[1].hex(), a_[2]), b_ and (b_[0], b_[1].hex(), b_[2])), {'bytes': b.hex(), 'pre16': True})
         if ins is None:
             sh.counters['miasmx_rejects'] += 1
             continue
@@ -42,6 +69,20 @@ def analyse(sh, items, tier):
             sh.counters['render_raises(C10)'] += 1
             continue
         dec.append((b, cls, ins.l, bytes(ins.b), text, ins.m.name))
+        # decoded instruction objects stay valid while other strings are decoded: the last object whose second byte was the same
+        # (same ModRM row under another opcode, same opcode under another prefix) is printed again
+        k2 = b[1] if len(b) > 1 else -1
+        prev = LIVE.get(k2)
+        if prev is not None and prev[2] != b[0]:
+            sh.counters['live_objects_reprinted'] += 1
+            try:
+                t2 = str(prev[0])
+            except Exception as e_:
+                t2 = 'raises %s' % type(e_).__name__
+            if t2 != prev[1]:
+                sh.case(('live', prev[3], b), True, cls=None)
+                sh.violation('live-object/rendering-changed-after-another-decode', 'dis(%s) printed as %r; after dis(%s) the same object prints as %r' % (prev[3].hex(), prev[1], b.hex(), t2), {'bytes': b.hex(), 'previous': prev[3].hex()})
+        LIVE[k2] = (ins, text, b[0], b)
         # the same bytes read by a linear-sweep client: from a stream positioned at a non-zero offset, once followed by other bytes
         # and once ending exactly where the instruction ends; the report (length, raw bytes, text, stream position) must be the same
         if (b[0] + len(dec)) % 8 == 0:
